@@ -399,16 +399,11 @@ def idle_block_rule(run, f, rid):
         return
     for (x, t) in bl:
         d = describe_val(b, du, t["args"][-1])
-        ok = False
-        if isinstance(d, tuple) and d and d[0] == "call" and d[1].startswith("std::time::Duration::from_") and len(d[2]) == 1 and d[2][0][0] == "const":
-            try:
-                v = int(d[2][0][1])
-                ns = v * {"from_secs": 10**9, "from_millis": 10**6, "from_micros": 10**3, "from_nanos": 1}[d[1].rsplit("::", 1)[1]]
-                ok = 0 < ns <= 10 * 10**6
-            except (ValueError, KeyError, TypeError):
-                ok = False
+        from rules.common import const_duration_ns
+        ns = const_duration_ns(b, du, t["args"][-1])
+        ok = ns is not None and 0 < ns <= 10 * 10**6
         if ok:
-            run.ok(rid, "worker-loop/idle-park", {"duration": d[1].rsplit("::", 1)[1] + "(" + str(d[2][0][1]) + ")"})
+            run.ok(rid, "worker-loop/idle-park", {"nanoseconds": ns})
         else:
             run.fail(rid, "worker-loop/idle-park", b.loc(t["line"]), "an idle worker parks the event-loop thread for %r, which is not a constant of at most 10 ms: coroutines sleeping or waiting on that loop are not resumed until the park ends" % (d,))
 
